@@ -1,6 +1,7 @@
 package rules
 
 import (
+	"go/ast"
 	"go/token"
 	"go/types"
 	"strings"
@@ -134,7 +135,9 @@ func errorChecksMeanWhatTheySay(r *Report, p *Program, rule string, only ...func
 					}
 				}
 				look(ev)
-				if !examined && !examineScope {
+				// an error that was bound to a variable (not '_') and is then never looked at: in the hook transport
+				// every step's failure matters (C19: any transport / read / decode failure is an error)
+				if !examined && !examineScope && !(strings.Contains(FK(f), "/pkg/hooks.") && !blankErrorLHS(f, call)) {
 					continue
 				}
 				if !examined {
@@ -1007,4 +1010,29 @@ func isZeroStruct(v ssa.Value) bool {
 		}
 	}
 	return true
+}
+
+// blankErrorLHS: the call is the right-hand side of an assignment whose last left-hand side is '_'
+// (go/ssa emits an Extract for it all the same when the statement is '=' rather than ':=').
+func blankErrorLHS(f *ssa.Function, call *ssa.Call) bool {
+	root := f.Syntax()
+	if root == nil {
+		return false
+	}
+	blank := false
+	ast.Inspect(root, func(n ast.Node) bool {
+		as, ok := n.(*ast.AssignStmt)
+		if !ok || len(as.Rhs) != 1 || len(as.Lhs) < 2 {
+			return true
+		}
+		ce, ok := as.Rhs[0].(*ast.CallExpr)
+		if !ok || ce.Lparen != call.Pos() {
+			return true
+		}
+		if id, ok := as.Lhs[len(as.Lhs)-1].(*ast.Ident); ok && id.Name == "_" {
+			blank = true
+		}
+		return false
+	})
+	return blank
 }
